@@ -1781,7 +1781,7 @@ class _RFails:
 
     def add(self, fid, clause, detail, lay, edits):
         key = (fid, clause)
-        case = {'layout': {k: lay[k] for k in ('family', 'cls', 'pred', 'nt', 'ne', 'ns', 'theta', 'omega', 'sigma', 'spell', 'scaled') if k in lay},
+        case = {'layout': {k: lay[k] for k in ('family', 'cls', 'pred', 'nt', 'ne', 'ns', 'theta', 'omega', 'sigma', 'spell', 'scaled', 'named') if k in lay},
                 'edits': edits, 'fid': fid, 'clause': clause}
         size = (len(edits), lay['nt'] + lay['ne'] + lay['ns'], len(lay['theta']) + len(lay['omega']) + len(lay['sigma']))
         lst = self.also.setdefault(key, [])
@@ -2022,11 +2022,214 @@ def _run_layout(lay, depth):
     return cases, nontrivial, fails
 
 
+# --- DIAGONAL records with name comments on some of the values ----------------------------------
+#
+# C04: "whatever the layout ... (name comments), after ... removing ... or joining ... random effects,
+# re-reading the generated code yields exactly the parameters ... of the in-memory model, with the same
+# names".  A `; NAME` comment after a value names that value (and only that value); a value without a
+# name comment has a positional default name.  The layouts below enumerate EVERY pattern of named and
+# unnamed values of a DIAGONAL record (every distribution of the values over lines; a comment ends its
+# line, so the last value of a line may carry one), the edits take every value out of the record
+# (removal of every proper subset, joining every subset into a BLOCK) or change it in place.
+# Positional default names are not compared (that they are renumbered after a removal is the recorded
+# finding "... re-read parameters have the same names" of the plain layouts); the clauses N_* compare
+# the names the control stream states explicitly.
+
+N_READ = ('a value followed by a `; NAME` comment is read as parameter NAME, a value without a name comment under a '
+          'default name')
+N_KEEP = ('a value named by a `; NAME` comment keeps that name: every comment-named parameter of the in-memory model '
+          'is re-read under its name with the same value and fixedness')
+N_ONLY = ('a name comment names only its own value: no re-read parameter carries the comment name of a value that is '
+          'no longer in the model')
+_NAMED_CLS = 'DIAGONAL with name comments'
+_NAMED_VALUES = ['0.10', '0.20', '0.30']
+
+
+def _named_specs(n):
+    """(text with ${R}, [comment name or None per value], header variant) for n values"""
+    out = []
+    for comp in _compositions(n):
+        ends = []
+        k = 0
+        for size in comp:
+            k += size
+            ends.append(k - 1)
+        for flags in itertools.product((False, True), repeat=len(ends)):
+            names = [None] * n
+            for e, f in zip(ends, flags):
+                if f:
+                    names[e] = f'NV{e + 1}'
+            lines = []
+            k = 0
+            for size in comp:
+                ln = ' '.join(_NAMED_VALUES[k:k + size])
+                if names[k + size - 1]:
+                    ln += ' ; ' + names[k + size - 1]
+                lines.append(ln)
+                k += size
+            out.append(('${R} ' + '\n '.join(lines), names))
+            if all(size == 1 for size in comp):
+                out.append((f'${{R}} DIAGONAL({n})\n ' + '\n '.join(lines), names))
+    return out
+
+
+def _named_layouts(tier):
+    out = []
+    # (three epsilons: joining them runs into the naming of epsilon covariances, which the plain $SIGMA layouts cover)
+    for family, sizes in (('omega', (3,) if tier == 'quick' else (2, 3)), ('sigma', (2,))):
+        R = family.upper()
+        for n in sizes:
+            for text, names in _named_specs(n):
+                pnames = [c or f'{R}_{i + 1}_{i + 1}' for i, c in enumerate(names)]
+                lay = {'family': family, 'cls': f'${R} {_NAMED_CLS}', 'nt': 2, 'ne': n if family == 'omega' else 1,
+                       'ns': n if family == 'sigma' else 1, 'pred': 'mul', 'theta': _SIMPLE_THETA,
+                       'omega': text.replace('${R}', '$OMEGA') if family == 'omega' else _SIMPLE_OMEGA['text'],
+                       'sigma': text.replace('${R}', '$SIGMA') if family == 'sigma' else _SIMPLE_SIGMA['text'],
+                       'spell': {pn: [v] for pn, v in zip(pnames, _NAMED_VALUES)}, 'scaled': [], 'named': names}
+                out.append(lay)
+    return out
+
+
+def _named_edits(lay):
+    """take every value out of the record (every proper subset removed, every subset of >= 2 joined) and change
+    every value in place; independent of the model that pharmpy reads"""
+    family = lay['family']
+    n = len(lay['named'])
+    rv = [f'ETA_{i + 1}' if family == 'omega' else f'EPS_{i + 1}' for i in range(n)]
+    pn = list(lay['spell'])
+    E = []
+    for size in range(1, n):
+        for sub in itertools.combinations(range(n), size):
+            if family == 'omega':
+                E.append(['remove_iiv', [rv[i] for i in sub]])
+            elif size == 1:
+                E.append(['rm_eps', rv[sub[0]]])
+    for size in range(2, n + 1):
+        for sub in itertools.combinations(range(n), size):
+            E.append(['join', [rv[i] for i in sub]])
+    for i in range(n):
+        E.append(['init', pn[i], round(float(_NAMED_VALUES[i]) * 1.5 + 0.0137, 6)])
+        E.append(['fix', [pn[i]]])
+    return E
+
+
+def _check_named(m0, m2, lay, edits):
+    """violated clauses [(fid, clause, detail)] of the name-comment contract for the in-memory model m2"""
+    from pharmpy.modeling import read_model_from_string
+
+    out = []
+    try:
+        code = m2.update_source().code
+        m3 = read_model_from_string(code)
+    except Exception:
+        return out  # reported by _check_roundtrip (R_PARSE)
+    rec = 'OMEGA' if lay['family'] == 'omega' else 'SIGMA'
+    shown = ' // '.join(ln for ln in code.split('\n') if ln[:1] in '$ 0123456789(.;' and not ln.startswith(
+        ('$PROB', '$INPUT', '$DATA', '$PRED', '$EST', '$THETA')))
+    ctx = f"layout {lay[lay['family']]!r}, edits {edits}: code {shown!r}: "
+    comment_names = [c for c in lay['named'] if c]
+    p2, p3 = _pmap(m2), _pmap(m3)
+    bad = []
+    for c in comment_names:
+        if c in p2:
+            if c not in p3:
+                bad.append((c, 'not re-read'))
+            elif not _close(p2[c][0], p3[c][0], 1e-6) or p2[c][3] != p3[c][3]:
+                bad.append((c, 'in memory (init, fix)', (p2[c][0], p2[c][3]), 're-read', (p3[c][0], p3[c][3])))
+    if bad:
+        out.append((FID_UPD_RV, N_KEEP, ctx + f'{bad}; in memory {list(p2)}, re-read {list(p3)}'))
+    stolen = [c for c in comment_names if c in p3 and c not in p2]
+    if stolen:
+        out.append((FID_UPD_RV, N_ONLY, ctx + f'{stolen} of ${rec}: in memory {list(p2)}, re-read {list(p3)}'))
+    # spelling of the values the edit does not touch (reference: the edit descriptor; a value that stays in the
+    # DIAGONAL record and is not the edited one is untouched)
+    rv = 'ETA_' if lay['family'] == 'omega' else 'EPS_'
+    touched = set()
+    for e in edits:
+        if e[0] in ('remove_iiv', 'join'):
+            touched.update(int(x[len(rv):]) - 1 for x in e[1])
+        elif e[0] == 'rm_eps':
+            touched.add(int(e[1][len(rv):]) - 1)
+        elif e[0] == 'init':
+            touched.add(list(lay['spell']).index(e[1]))
+        elif e[0] == 'fix':
+            touched.update(list(lay['spell']).index(x) for x in e[1])
+    text = _records_text(code, rec)
+    lost = [(pn, toks[0]) for i, (pn, toks) in enumerate(lay['spell'].items()) if i not in touched and not _has_token(text, toks[0])]
+    if lost:
+        out.append((FID_UPD_RV, R_SPELL, ctx + f'untouched (parameter, original spelling) no longer in the record text: {lost}'))
+    return out
+
+
+def _named_eval(lay, edits):
+    """the contract for one edit sequence ([] or one edit) on a layout with name comments.
+    returns (status, [(fid, full clause, detail)])"""
+    from pharmpy.model import ModelSyntaxError
+    from pharmpy.modeling import read_model_from_string
+
+    code = _layout_code(lay)
+    fid = FID_UPD_RV
+    found = []
+    plain = dict(lay, spell={})  # the spelling clause of _check_roundtrip presumes default names; see _check_named
+    try:
+        m0 = read_model_from_string(code)
+    except ModelSyntaxError:
+        return 'rejected', found
+    except Exception as e:
+        if not edits:
+            found.append((FID_PARSE, _full_clause(lay, [], f'{R_READ} ({type(e).__name__})'), f'layout {code!r}: {_exc_str(e)}'))
+        return 'error', found
+    if not edits:
+        roles = _roles(m0)
+        kind = lay['family']
+        got = [roles.get((kind, i + 1, i + 1)) for i in range(len(lay['named']))]
+        if got != list(lay['spell']):
+            found.append((FID_PARSE, _full_clause(lay, [], N_READ),
+                          f"layout {lay[kind]!r}: variances read as {got}, written as {list(lay['spell'])}"))
+        try:
+            regen = m0.update_source().code
+            if regen != code:
+                found.append((fid, _full_clause(lay, [], R_IDENT), f'layout {code!r} regenerated as {regen!r}'))
+        except Exception as e:
+            found.append((fid, _full_clause(lay, [], f'{R_PARSE} ({type(e).__name__})'), f'layout {code!r}: {_exc_str(e)}'))
+        viol = _check_roundtrip(m0, m0, plain, []) + _check_named(m0, m0, lay, [])
+        status = 'ok'
+    else:
+        e = edits[-1]
+        m2, status, viol = _eval_sequence(m0, m0, plain, edits, e)
+        if status == 'ok':
+            viol = viol + _check_named(m0, m2, lay, edits)
+    for f_, c_, d_ in viol:
+        if c_ in (R_NAMES, R_ORDER):
+            continue  # whole name lists: positional default names and the list order are not part of this contract
+        found.append((f_, _full_clause(lay, edits, c_), d_))
+    return status, found
+
+
+def _run_named_layout(lay):
+    fails = _RFails()
+    cases = 1
+    status, found = _named_eval(lay, [])
+    for f_, c_, d_ in found:
+        fails.add(f_, c_, d_, lay, [])
+    if status != 'ok':
+        return cases, 0, fails
+    nontrivial = 1
+    for e in _named_edits(lay):
+        cases += 1
+        status, found = _named_eval(lay, [e])
+        for f_, c_, d_ in found:
+            fails.add(f_, c_, d_, lay, [e])
+        if status != 'rejected':
+            nontrivial += 1
+    return cases, nontrivial, fails
+
+
 def _layout_worker(args):
     lay, depth = args
     with contextlib.redirect_stdout(io.StringIO()), contextlib.redirect_stderr(io.StringIO()):
         try:
-            cases, nontrivial, fails = _run_layout(lay, depth)
+            cases, nontrivial, fails = _run_named_layout(lay) if lay.get('named') is not None else _run_layout(lay, depth)
             for key, (size, f) in fails.items.items():
                 f['also'] = fails.also[key]  # the failing cases of this layout; merged in bounded_record_updates
             return cases, nontrivial, list(fails.items.values())
@@ -2050,6 +2253,8 @@ def bounded_record_updates(tier):
         # pairs of edits: every edit applicable after every first edit
         jobs = [(lay, 2) for lay in pair_layouts] + [(lay, 1) for lay in th if lay['nt'] > 2]
         npairs = len(pair_layouts)
+    named = _named_layouts(tier)
+    jobs += [(lay, 1) for lay in named]  # single edits only (after the existing layouts of the same size)
     jobs.sort(key=lambda j: -(j[1] * 100 + j[0]['nt'] + j[0]['ne'] + j[0]['ns']))
     with multiprocessing.get_context('fork').Pool(NPROC) as pool:
         results = pool.map(_layout_worker, jobs, chunksize=1)
@@ -2083,6 +2288,10 @@ def bounded_record_updates(tier):
             f'remove each theta / epsilon, join trailing / leading / outer / all, split all / each, remove_iiv of each eta '
             f'and of all but the first, add_iiv exp/add)'
             + (f' and EVERY ordered pair of such edits on {npairs} layouts' if npairs else '')
+            + f'; + {len(named)} DIAGONAL $OMEGA / $SIGMA layouts of {"3 / 2" if tier == "quick" else "2-3 / 2"} values with EVERY '
+            f'pattern of values with and without a `; NAME` comment (every distribution of the values over lines, with and '
+            f'without DIAGONAL(n)) x removal of every proper subset of the etas (of each epsilon), joining of every subset, '
+            f'init and fix of every value: comment names and values after re-reading'
         ),
         'samples': [_short((j[0]['theta'], j[0]['omega'], j[0]['sigma']), 200) for j in (jobs[0], jobs[len(jobs) // 2], jobs[-1])],
         'fails': fails,
@@ -2100,6 +2309,13 @@ def bounded_record_updates_replay(rp):
     code = _layout_code(lay)
     family = lay['family']
     fid = FID_UPD_TH if family == 'theta' else FID_UPD_RV
+    if lay.get('named') is not None:
+        with contextlib.redirect_stdout(io.StringIO()), contextlib.redirect_stderr(io.StringIO()):
+            status, found = _named_eval(lay, edits)
+        for f_, c_, d_ in found:
+            if f_ == case.get('fid') and c_ == case.get('clause'):
+                return (False, _short(d_, 900))
+        return (True, 'ok')
     with contextlib.redirect_stdout(io.StringIO()), contextlib.redirect_stderr(io.StringIO()):
         try:
             m0 = read_model_from_string(code)
